@@ -115,8 +115,12 @@ def run_real(scn, choose):
     try:
         sched.spawn("M", main)
         sched.spawn("P", proxy)
+        hard_limit = 200000 if scn.get("fine_seed") is not None else 6000
         while True:
             before = len(sched.chunks)
+            if before >= hard_limit:
+                status = "limit"
+                break
             sched.max_chunks = before + 1
             status = sched.run()
             if len(sched.chunks) == before:
@@ -156,6 +160,8 @@ def driver_lines(run):
                 o = "tstart"
             else:
                 continue
+        elif kind == "after-start":
+            continue              # the creator continues after Thread.start(): no model-relevant operation of its own
         elif kind == "task-start":
             o = "start"
         elif kind == "put":
